@@ -40,7 +40,7 @@ fixed('C05', '15df948', 'password made of ~1000 separate keyboard walks: detect_
 
 fixed('C13', 'ed5a5e9', 'candidate containing a letter whose case mapping is not one-to-one (title-case U+01C5, capital sharp s U+1E9E, ...): the scorer lower-cased + masked and returned p > 0 although the guesser can only emit lower()/upper() of the stored word, never the candidate itself', {'training': ['\u01c5ungla'], 'candidate': '\u01c5ungla'}, 'F-C13')
 
-finding('C20', 'context-label-length', 'edit_rules counts a context segment X1 as length 1 although context strings have 2-4 characters: a structure with an X label can survive a length filter and still generate guesses outside the requested bounds (F-C20)', {'structure': 'X1D1', 'options': '--max_length 2', 'guess': 'No.11 (length 5)'}, 'F-C20')
+fixed('C20', '53ab6ef', 'edit_rules counted a context segment X1 as length 1 although context strings have 2-4 characters: a structure with an X label could survive a length filter and still generate guesses outside the requested bounds', {'structure': 'X1D1', 'options': '--max_length 2', 'guess': 'No.11 (length 5)'}, 'F-C20')
 
 json.dump(F, open('/verif/known_findings.json', 'w'), indent=1)
 print(len(F), 'entries')
